@@ -73,12 +73,14 @@ def job(chk, item):
     if kind == 'expr':
         _, detector, positions = item
         for pos in positions:
-            n = len(fam.forms_for(detector, sol.TreeBuilder()))
+            fkey = detector
+            det = detector.split(':')[0]
+            n = len(fam.forms_for(fkey, sol.TreeBuilder()))
             for i in range(n):
                 b = sol.TreeBuilder()
-                label, expr = fam.forms_for(detector, b)[i]
+                label, expr = fam.forms_for(fkey, b)[i]
                 su = fam.build_file(b, pos, expr)
-                results.append(fam.run_case(chk, e, detector, su, '%s @ %s' % (label, pos), {v.decl().name() for v in b.loc_vars}))
+                results.append(fam.run_case(chk, e, det, su, '%s @ %s' % (label, pos), {v.decl().name() for v in b.loc_vars}))
     elif kind == 'selfdestruct':
         for (fk, vis, mod, kill, guard, shape, where) in item[1]:
             b = sol.TreeBuilder()
@@ -136,6 +138,8 @@ def body(chk):
     for d in ('unsafe_erc20_operation', 'divide_before_multiply'):
         for k in range(0, len(positions), 4):
             items.append(('expr', d, positions[k:k + 4]))
+    for pos in (['statement', 'catch_body'] if chk.quick else ['statement', 'catch_body', 'return', 'call_argument', 'modifier_argument']):
+        items.append(('expr', 'divide_before_multiply:spines', [pos]))
     combos = []
     for fk, vis, mod in itertools.product(KINDS, VIS, MODS):
         for kill, guard in itertools.product(KILLS, GUARDS):
